@@ -259,6 +259,104 @@ func (s *searcher) adversarial(nKeys int) {
 	}
 }
 
+// qnTransport: the qualification rule must see the same proof the proposer saw.
+// (a) validateProve(full 80 bytes) == validateProve(bytes read back from the header's big.Int)
+// for proofs with 1..3 leading zero bytes (synthetic, and honestly generated ones found by search);
+// (b) an honest header built from the proposer's (ok, qn) passes verifyBlockVRF after transport.
+func (s *searcher) qnTransport(nSynthetic, nHonest int) {
+	rb := common.GetRewardBlocks()
+	thrs := []uint64{threshold(), rb + 100}
+	defer setThreshold(thrs[0])
+	type stake struct{ h, wm, t uint64 }
+	grid := func(thr uint64) []stake {
+		return []stake{{0, 0, 1}, {10, 0, 5}, {10, 0, 10}, {10, 0, 100}, {thr + 1, 1, 7}, {thr + 1, 3, 1000}, {thr + 1, 2, 1 << 40}}
+	}
+	qnLine := func(thr uint64, p []byte, st stake) string {
+		return fmt.Sprintf("qn %d %s %d %d %d", thr, hx.Hex(p), st.h, st.wm, st.t)
+	}
+	cmp := func(full []byte, what string) {
+		short := new(big.Int).SetBytes(full).Bytes()
+		for _, thr := range thrs {
+			for _, st := range grid(thr) {
+				l1, l2 := qnLine(thr, full, st), qnLine(thr, short, st)
+				r1 := hx.Guard(func() string { return exec(l1) })
+				r2 := hx.Guard(func() string { return exec(l2) })
+				s.evals += 2
+				if r1 != r2 {
+					s.report("qn-differs-after-transport",
+						fmt.Sprintf("validateProve gives %q for the %s 80-byte proof but %q for the same proof read back from the header's big integer (%d leading zero bytes dropped)", r1, what, r2, len(full)-len(short)),
+						"validateProve(transported proof) = validateProve(full proof) = "+r1, l1, l2)
+				}
+			}
+		}
+	}
+	for i := 0; i < nSynthetic; i++ {
+		pi := s.r.Bytes(80)
+		z := 1 + i%3
+		for j := 0; j < z; j++ {
+			pi[j] = 0
+		}
+		if pi[z] == 0 {
+			pi[z] = 1
+		}
+		switch s.r.Intn(4) { // spread the value over the accepted range of small stake ratios
+		case 0:
+			pi[z] = byte(1 + s.r.Intn(3))
+		case 1:
+			pi[z] = 0xff
+		}
+		cmp(pi, "synthetic")
+	}
+	// honest proofs that start with a zero byte (about 1 in 256)
+	found := 0
+	pk, sk := s.key()
+	for i := 0; i < nHonest*4000 && found < nHonest; i++ {
+		if i%600 == 599 {
+			pk, sk = s.key()
+		}
+		m := s.r.Bytes(32)
+		pi, err := ed25519.ECVRFProve(sk, m)
+		s.evals++
+		if err != nil || pi[0] != 0 {
+			continue
+		}
+		found++
+		cmp(pi, "honest")
+		pv := new(big.Int).SetBytes(pi).Bytes()
+		if r := s.verify(pk, pv, m); r != "true" {
+			s.report("transported-proof-rejected", "honest proof with a leading zero byte fails ECVRFVerify after big.Int transport: "+r, "true", vline(pk, pv, m))
+		}
+		for _, thr := range thrs {
+			for _, st := range grid(thr) {
+				if st.h == 0 {
+					st.h = 1
+				}
+				// proposer side (vrfWorker.genProve): validateProve on the full proof decides (ok, qn)
+				var ok bool
+				var qn uint64
+				g := hx.Guard(func() string {
+					setThreshold(thr)
+					ok, qn = logical.VerifC16ValidateProve(pi, st.h, st.wm, st.t)
+					return ""
+				})
+				if g != "" || !ok {
+					continue // the proposer would not cast this block
+				}
+				line := fmt.Sprintf("vbv %d %s %s %s %d %d %d %d %d", thr, hx.Hex(pk), hx.Hex(pv), hx.Hex(m), st.h, st.wm, st.t, 1000+qn, 1000)
+				res := hx.Guard(func() string { return exec(line) })
+				s.evals++
+				s.counts["honest-leading-zero-headers-checked"]++
+				if res != "ok" {
+					s.report("honest-header-rejected-after-transport",
+						fmt.Sprintf("a block whose proposer-side validateProve(full proof) = (true, %d) is rejected by verifyBlockVRF (%s) once the proof is read back from BlockHeader.ProveValue (leading zero byte dropped)", qn, res),
+						"ok", line, qnLine(thr, pi, st), qnLine(thr, pv, st))
+				}
+			}
+		}
+	}
+	s.counts["honest-proofs-with-leading-zero-byte(qn transport)"] = found
+}
+
 // qnRange: whenever validateProve accepts, 1 <= qn <= MaxQN; and it is a function of its inputs.
 func (s *searcher) qnRange(n int) {
 	maxq := uint64(model.Param.MaxQN)
@@ -368,6 +466,7 @@ func search(a map[string]string) {
 	s.bitflips(6 * scale)
 	s.adversarial(4 * scale)
 	s.qnRange(400 * scale)
+	s.qnTransport(30*scale, 6*scale)
 	for k, v := range s.perKey {
 		s.counts["violations:"+k] = v
 	}
